@@ -114,6 +114,8 @@ pub fn mtu_family(ctx: &Ctx) -> Outcome {
             (9000, None, None, false),
             (4000, Some(3000), None, false),
             (9000, Some(5000), None, true),
+            // beyond 16 KiB: datagrams larger than a conservative receive buffer
+            (20_000, None, None, false),
         ],
         Tier::Thorough => {
             let mut g = vec![];
